@@ -106,6 +106,82 @@ theorem ackChain_lo {pos : Nat} : ∀ {q : List (List Nat)} {hi lo lo' : Nat}, A
     · rename_i hn; rw [hn] at h; exact ih h hl
     · rename_i a ha; rw [ha] at h; exact ⟨h.1, h.2.1, ih h.2.2 hl⟩
 
+/-- distance (behind `pos`) of the youngest acknowledgement travelling in `q` -/
+def lastAck (pos : Nat) : List (List Nat) → Option Nat
+  | [] => none
+  | seg :: rest =>
+    match lastAck pos rest with
+    | some d => some d
+    | none => (ackOf seg).map (wrapSub pos)
+
+/-- no segment of `q` carries an acknowledgement -/
+def NoAck (q : List (List Nat)) : Prop := ∀ seg ∈ q, ackOf seg = none
+
+theorem lastAck_none_iff (pos : Nat) : ∀ q : List (List Nat), lastAck pos q = none ↔ NoAck q := by
+  intro q
+  induction q with
+  | nil => simp [lastAck, NoAck]
+  | cons seg rest ih =>
+    simp only [lastAck, NoAck, List.mem_cons, forall_eq_or_imp]
+    cases h : lastAck pos rest with
+    | some d =>
+      simp only [reduceCtorEq, false_iff, not_and]
+      intro _ hn
+      have := ih.mpr hn
+      rw [h] at this; cases this
+    | none =>
+      have hr := ih.mp h
+      simp only [Option.map_eq_none_iff]
+      exact ⟨fun h1 => ⟨h1, hr⟩, fun h1 => h1.1⟩
+
+theorem lastAck_snoc_none {pos : Nat} {seg : List Nat} (hs : ackOf seg = none) :
+    ∀ q : List (List Nat), lastAck pos (q ++ [seg]) = lastAck pos q := by
+  intro q
+  induction q with
+  | nil => simp [lastAck, hs]
+  | cons s rest ih => simp only [List.cons_append, lastAck, ih]
+
+theorem lastAck_snoc_some {pos a : Nat} {seg : List Nat} (hs : ackOf seg = some a) :
+    ∀ q : List (List Nat), lastAck pos (q ++ [seg]) = some (wrapSub pos a) := by
+  intro q
+  induction q with
+  | nil => simp [lastAck, hs]
+  | cons s rest ih => simp only [List.cons_append, lastAck, ih]
+
+theorem lastAck_shift {pos : Nat} (hp : pos < 256) :
+    ∀ {q : List (List Nat)} {hi lo : Nat}, AckChain pos hi lo q → hi < 255 →
+      lastAck ((pos + 1) % 256) q = (lastAck pos q).map (· + 1) := by
+  intro q
+  induction q with
+  | nil => intro _ _ _ _; rfl
+  | cons s rest ih =>
+    intro hi lo h hh
+    simp only [AckChain] at h
+    simp only [lastAck]
+    cases ha : ackOf s with
+    | none =>
+      rw [ha] at h
+      rw [ih h hh]
+      cases lastAck pos rest <;> simp
+    | some a =>
+      rw [ha] at h
+      obtain ⟨h1, h2, h3⟩ := h
+      rw [ih h3 (by omega)]
+      cases lastAck pos rest with
+      | some d => simp
+      | none =>
+        simp only [Option.map_none, Option.map_some, Option.some.injEq]
+        unfold wrapSub at h2 ⊢; omega
+
+/-- the accounting is tight: the youngest acknowledgement in flight covers everything `Y` had
+received when it was sent (`d = ack_level`); with no acknowledgement in flight, `X` counts at most
+one segment more than `Y` has received and not acknowledged (the handshake response, which the
+initiator acknowledges only together with the first data segment) -/
+def Tight (pos hi lo : Nat) (aq : List (List Nat)) : Prop :=
+  match lastAck pos aq with
+  | some d => d = lo
+  | none => hi ≤ lo + 1
+
 /-! ## What a well-behaved sender emits -/
 
 /-- A data / ack segment as `prep_tx_data` builds it, relative to the state the receiver will be in
@@ -263,7 +339,7 @@ theorem accept_ok {mtu seq : Nat} {r : RecvWindow} {h : Hdr} {p : List Nat}
     (hbuf : r.buf.length + (sduPrefix h.getMsgLen).length + p.length ≤ 3166) (now : Nat) :
     ∃ r', r.acceptIncoming h p mtu now = .ok r' ∧ r'.level + 1 = r.level ∧ r'.ackLevel = r.ackLevel + 1 ∧
       r'.ackSeq = h.seqNum ∧ r'.remMsgLen = (if h.beg then h.msgLen else r.remMsgLen) - p.length ∧
-      r'.buf = (r.buf ++ sduPrefix h.getMsgLen) ++ p := by
+      r'.buf = (r.buf ++ sduPrefix h.getMsgLen) ++ p ∧ r'.receivedAt = some now := by
   have hint := integrity_ok hok hseq
   have hgm := segOk_getMsgLen hok
   have hsr : r.startRem h.getMsgLen = (if h.beg then h.msgLen else r.remMsgLen) := by
@@ -318,8 +394,8 @@ theorem accept_ok {mtu seq : Nat} {r : RecvWindow} {h : Hdr} {p : List Nat}
   have hacc : r.acceptIncoming h p mtu now = .ok r' := by
     rw [acceptIncoming_eq_commit r h p mtu now hint (by omega) g3 g4 g5 g6 g7 g8, hr']
   refine ⟨r', hacc, ?_⟩
-  obtain ⟨e1, e2, _, e4, e5, e6, _⟩ := commit_inv hr'
-  refine ⟨e4, e6, e5, by rw [e2, hsr], ?_⟩
+  obtain ⟨e1, e2, _, e4, e5, e6, e7⟩ := commit_inv hr'
+  refine ⟨e4, e6, e5, by rw [e2, hsr], ?_, e7⟩
   rw [e1, ringPush_eq r.buf _ (by omega), ringPush_eq _ _ (by simp only [List.length_append]; omega)]
 
 /-! ## One direction of an established link -/
@@ -353,6 +429,8 @@ structure DirOk (W mtu : Nat) (snd : SendWindow) (rcv : RecvWindow) (rs : Spec.R
   rsb : rs.remaining > 0 → rs.cur.length + rs.remaining ≤ 1232
   buf : rcv.buf.length ≤ 1233 + rcv.ackLevel * mtu
   mc : rcv.msgCt ≤ rcv.ackLevel
+  tight : Tight rcv.ackSeq (W - snd.level - dq.length) rcv.ackLevel aq
+  stamp : rcv.ackLevel > 0 → rcv.receivedAt.isSome = true
 
 /-- the cross-end form of "never more unacknowledged segments than the peer's window allows":
 the segments in flight fit the free slots of the peer's receive window -/
@@ -408,7 +486,7 @@ theorem dirOk_accept {W mtu : Nat} (hp : POk W mtu) {snd : SendWindow} {rcv : Re
   have hbufb := d.buf
   have hwm := hp.wm
   rw [← d.rem] at hok
-  obtain ⟨r', hacc, e1, e2, e3, e4, e5⟩ := accept_ok hok rfl hl hal hmc (by omega) now
+  obtain ⟨r', hacc, e1, e2, e3, e4, e5, e6⟩ := accept_ok hok rfl hl hal hmc (by omega) now
   have hmc' : r'.msgCt ≤ r'.ackLevel := by
     obtain ⟨_, _, _, _, _, _, _, _, hc⟩ := acceptIncoming_inv hacc
     obtain ⟨_, _, e6, _⟩ := commit_inv hc
@@ -439,13 +517,41 @@ theorem dirOk_accept {W mtu : Nat} (hp : POk W mtu) {snd : SendWindow} {rcv : Re
   · exact hrsb
   · rw [e5, e2]; simp only [List.length_append]; omega
   · exact hmc'
+  · rw [e3, hseq, e2]
+    have hlt : W - snd.level - (seg :: rest).length < 255 := by
+      simp only [List.length_cons]; have := hp.w255; omega
+    have hsh := lastAck_shift hpos d.acks hlt
+    have ht := d.tight
+    unfold Tight at ht ⊢
+    rw [hsh]
+    simp only [List.length_cons] at ht
+    cases hla : lastAck rcv.ackSeq aq with
+    | none => rw [hla] at ht; simp only [Option.map_none]; simp only at ht; omega
+    | some dd => rw [hla] at ht; simp only [Option.map_some]; simp only at ht; omega
+  · intro _; rw [e6]; rfl
+
+theorem tight_tail_none {pos hi lo : Nat} {seg : List Nat} {rest : List (List Nat)} (hs : ackOf seg = none)
+    (h : Tight pos hi lo (seg :: rest)) : Tight pos hi lo rest := by
+  unfold Tight at h ⊢
+  simp only [lastAck, hs, Option.map_none] at h
+  cases hl : lastAck pos rest with
+  | none => rw [hl] at h; exact h
+  | some d => rw [hl] at h; exact h
+
+theorem tight_tail_some {pos hi lo a : Nat} {seg : List Nat} {rest : List (List Nat)} (hs : ackOf seg = some a)
+    (h : Tight pos hi lo (seg :: rest)) : Tight pos (wrapSub pos a) lo rest := by
+  unfold Tight at h ⊢
+  simp only [lastAck, hs, Option.map_some] at h
+  cases hl : lastAck pos rest with
+  | none => rw [hl] at h; simp only at h ⊢; omega
+  | some d => rw [hl] at h; exact h
 
 /-- **`X` processes the acknowledgement (if any) carried by the oldest segment travelling `Y → X`** -/
 theorem dirOk_ack {W mtu : Nat} (hW : W ≤ 255) {snd : SendWindow} {rcv : RecvWindow} {rs : Spec.Reasm}
     {seg : List Nat} {dq rest : List (List Nat)} (d : DirOk W mtu snd rcv rs dq (seg :: rest))
     {h : Hdr} {p : List Nat} (hdec : decodeHdr seg = .ok (h, p)) (hhs : h.hs = false) (now : Nat) :
     snd.checkIncoming h = .ok () ∧ ∃ w', snd.acceptIncoming h now = .ok w' ∧
-      DirOk W mtu w' rcv rs dq rest := by
+      DirOk W mtu w' rcv rs dq rest ∧ (h.getAck = none → w' = snd) ∧ (h.getAck.isSome = true → 1 ≤ w'.level) := by
   have hack : ackOf seg = h.getAck := by simp [ackOf, hdec, hhs]
   have hacks := d.acks
   simp only [AckChain, hack] at hacks
@@ -457,11 +563,13 @@ theorem dirOk_ack {W mtu : Nat} (hW : W ≤ 255) {snd : SendWindow} {rcv : RecvW
   cases hga : h.getAck with
   | none =>
     rw [hga] at hacks
-    refine ⟨by simp [SendWindow.checkIncoming, hga], snd, by simp [SendWindow.acceptIncoming, hga], ?_⟩
-    exact { d with acks := hacks }
+    refine ⟨by simp [SendWindow.checkIncoming, hga], snd, by simp [SendWindow.acceptIncoming, hga], ?_,
+      (fun _ => rfl), (fun h0 => by simp at h0)⟩
+    exact { d with acks := hacks, tight := tight_tail_none (hack.trans hga) d.tight }
   | some a =>
     rw [hga] at hacks
     obtain ⟨ha, hlt, hrest⟩ := hacks
+    have htt := tight_tail_some (hack.trans hga) d.tight
     have hws : wrapSub snd.lastSent a = wrapSub rcv.ackSeq a + dq.length := by
       rw [hlast]; unfold wrapSub at hlt ⊢; omega
     refine ⟨?_, ?_⟩
@@ -476,7 +584,8 @@ theorem dirOk_ack {W mtu : Nat} (hW : W ≤ 255) {snd : SendWindow} {rcv : RecvW
       by_cases heq : snd.lastSent = a
       · simp only [heq, if_true]
         have h0 : wrapSub snd.lastSent a = 0 := by rw [heq]; unfold wrapSub; omega
-        refine ⟨_, rfl, ?_⟩
+        refine ⟨_, rfl, ?_, (fun h0 => by cases h0), (fun _ => by show 1 ≤ snd.windowSize; omega)⟩
+        have e : W - snd.windowSize - dq.length = wrapSub rcv.ackSeq a := by omega
         constructor <;> (try simp only [])
         · exact hsws
         · omega
@@ -484,16 +593,18 @@ theorem dirOk_ack {W mtu : Nat} (hW : W ≤ 255) {snd : SendWindow} {rcv : RecvW
         · rw [← heq]; exact hlast
         · exact hpos
         · omega
-        · have e : W - snd.windowSize - dq.length = wrapSub rcv.ackSeq a := by omega
-          rw [e]; exact hrest
+        · rw [e]; exact hrest
         · exact d.chain
         · exact d.rem
         · exact d.rsb
         · exact d.buf
         · exact d.mc
+        · rw [e]; exact htt
+        · exact d.stamp
       · simp only [heq, if_false]
         rw [csub_ok (by omega)]
-        refine ⟨_, rfl, ?_⟩
+        refine ⟨_, rfl, ?_, (fun h0 => by cases h0), (fun _ => by show 1 ≤ snd.windowSize - wrapSub snd.lastSent a; omega)⟩
+        have e : W - (snd.windowSize - wrapSub snd.lastSent a) - dq.length = wrapSub rcv.ackSeq a := by omega
         constructor <;> (try simp only [])
         · exact hsws
         · omega
@@ -501,13 +612,14 @@ theorem dirOk_ack {W mtu : Nat} (hW : W ≤ 255) {snd : SendWindow} {rcv : RecvW
         · exact hlast
         · exact hpos
         · omega
-        · have e : W - (snd.windowSize - wrapSub snd.lastSent a) - dq.length = wrapSub rcv.ackSeq a := by omega
-          rw [e]; exact hrest
+        · rw [e]; exact hrest
         · exact d.chain
         · exact d.rem
         · exact d.rsb
         · exact d.buf
         · exact d.mc
+        · rw [e]; exact htt
+        · exact d.stamp
 
 /-- **`X` emits a segment** (it has a free slot, and the segment is well-formed with respect to
 the state the receiver will be in after everything in flight) -/
@@ -520,6 +632,7 @@ theorem dirOk_emit {W mtu : Nat} {snd : SendWindow} {rcv : RecvWindow} {rs : Spe
   have hlvl := d.lvl
   have hcnt := d.cnt
   have hlast := d.last
+  have e : W - (snd.level - 1) - (dq.length + 1) = W - snd.level - dq.length := by omega
   constructor <;> (try simp only [List.length_append, List.length_singleton])
   · exact d.sws
   · omega
@@ -527,14 +640,15 @@ theorem dirOk_emit {W mtu : Nat} {snd : SendWindow} {rcv : RecvWindow} {rs : Spe
   · rw [hlast]; omega
   · exact d.pos
   · omega
-  · have e : W - (snd.level - 1) - (dq.length + 1) = W - snd.level - dq.length := by omega
-    rw [e]; exact d.acks
+  · rw [e]; exact d.acks
   · refine dataChain_snoc hdec d.chain ?_
     rw [← hlast]; exact hok
   · exact d.rem
   · exact d.rsb
   · exact d.buf
   · exact d.mc
+  · rw [e]; exact d.tight
+  · exact d.stamp
 
 /-- **`Y` emits a segment** (it travels in the acknowledgement queue of this direction): either it
 carries the pending acknowledgement of everything received so far and re-opens the receive window,
@@ -563,14 +677,23 @@ theorem dirOk_emitAck {W mtu : Nat} {snd : SendWindow} {rcv : RecvWindow} {rs : 
     · exact d.rsb
     · have := hbuf hc'.2; omega
     · omega
+    · unfold Tight
+      rw [lastAck_snoc_some hack]
+      show wrapSub rcv.ackSeq rcv.ackSeq = 0
+      unfold wrapSub; have := d.pos; omega
+    · intro h0; omega
   · simp only [hc, Bool.false_eq_true, if_false, Option.isSome_none] at hack ⊢
-    exact { d with acks := ackChain_snoc_none hack d.acks }
+    have ht := d.tight
+    unfold Tight at ht
+    exact { d with acks := ackChain_snoc_none hack d.acks,
+                   tight := by unfold Tight; rw [lastAck_snoc_none hack]; exact ht }
 
 /-- **the application at `Y` fetches a message**: only the ring buffer shrinks -/
 theorem dirOk_fetch {W mtu : Nat} {snd : SendWindow} {rcv rcv' : RecvWindow} {rs : Spec.Reasm}
     {dq aq : List (List Nat)} (d : DirOk W mtu snd rcv rs dq aq)
     (h1 : rcv'.level = rcv.level) (h2 : rcv'.ackLevel = rcv.ackLevel) (h3 : rcv'.ackSeq = rcv.ackSeq)
-    (h4 : rcv'.remMsgLen = rcv.remMsgLen) (h5 : rcv'.buf.length ≤ rcv.buf.length) (h6 : rcv'.msgCt ≤ rcv.msgCt) :
+    (h4 : rcv'.remMsgLen = rcv.remMsgLen) (h5 : rcv'.buf.length ≤ rcv.buf.length) (h6 : rcv'.msgCt ≤ rcv.msgCt)
+    (h7 : rcv'.receivedAt = rcv.receivedAt) :
     DirOk W mtu snd rcv' rs dq aq := by
   constructor
   · exact d.sws
@@ -585,6 +708,8 @@ theorem dirOk_fetch {W mtu : Nat} {snd : SendWindow} {rcv rcv' : RecvWindow} {rs
   · exact d.rsb
   · rw [h2]; have := d.buf; omega
   · rw [h2]; have := d.mc; omega
+  · rw [h3, h2]; exact d.tight
+  · rw [h2, h7]; exact d.stamp
 
 /-! ## What the pump emits -/
 
@@ -677,6 +802,16 @@ theorem notFull_level {s : Session} (hnf : s.send.isFull s.recv = false) : 1 ≤
   simp at hnf
   omega
 
+/-- the last send slot is only used for a segment that carries an acknowledgement (the fix) -/
+theorem notFull_last {s : Session} (hnf : s.send.isFull s.recv = false) :
+    s.send.level = 1 → s.recv.pendingAck.isSome = true := by
+  intro h1
+  unfold SendWindow.isFull at hnf
+  simp only [h1, Bool.or_eq_false_iff, Bool.and_eq_false_iff] at hnf
+  cases hp : s.recv.pendingAck with
+  | some a => rfl
+  | none => rw [hp] at hnf; simp at hnf
+
 theorem prepTxData_emit_eq {s : Session} (hs : SInv s) {data : List Nat} {off now : Nat} {h : Hdr} {p : List Nat}
     (hnf : s.send.isFull s.recv = false) (hb : s.buildSegment data off = .ok (h, p))
     (hsz : (h.encode ++ p).length ≤ 512) :
@@ -709,13 +844,16 @@ theorem segLen_le {mtu seq rem : Nat} {h : Hdr} {p : List Nat} (hok : SegOk mtu 
   have := hok.fits
   simp only [List.length_append]; omega
 
-/-- what the pump of an established end does: nothing, or one well-formed segment -/
+/-- what the pump of an established end does: nothing — because the send window is full, or
+because there is neither an SDU nor a due acknowledgement — or one well-formed segment -/
 theorem endOutgoing_sync {e : End} (he : EInv e) (hnp : e.s.handshakePending = false)
     (hest : e.s.established = true) {tx : Spec.Reasm} {sub : List (List Nat)} (ht : TxRep e tx sub) (now : Nat) :
-    e.processOutgoing now = .ok (e, []) ∨
+    (e.processOutgoing now = .ok (e, []) ∧
+      (e.s.send.isFull e.s.recv = true ∨ (e.sdu = [] ∧ e.s.isAckDue now ackTimeoutSecs = false))) ∨
     ∃ h p e', e.processOutgoing now = .ok (e', h.encode ++ p) ∧ 1 ≤ e.s.send.level ∧
       SegOk e.s.mtu e.s.send.lastSent tx.remaining h p ∧ h.getAck = e.s.recv.pendingAck ∧
-      e'.s = e.s.afterTx now ∧ e'.gattMtu = e.gattMtu := by
+      e'.s = e.s.afterTx now ∧ e'.gattMtu = e.gattMtu ∧
+      (e.s.send.level = 1 → e.s.recv.pendingAck.isSome = true) := by
   obtain ⟨hm20, hm244, _⟩ := he.s.est hest
   unfold End.processOutgoing
   rw [prepTxHandshake_idle hnp]
@@ -723,30 +861,41 @@ theorem endOutgoing_sync {e : End} (he : EInv e) (hnp : e.s.handshakePending = f
   have he1 : ({ e with s := e.s } : End) = e := rfl
   rw [he1]
   -- the acknowledgement step, taken when the data step emits nothing
-  have hack : e.ackStep now = .ok (e, []) ∨
+  have hack : (e.ackStep now = .ok (e, []) ∧
+        (e.s.send.isFull e.s.recv = true ∨ e.s.isAckDue now ackTimeoutSecs = false)) ∨
       ∃ h p e', e.ackStep now = .ok (e', h.encode ++ p) ∧ 1 ≤ e.s.send.level ∧
         SegOk e.s.mtu e.s.send.lastSent tx.remaining h p ∧ h.getAck = e.s.recv.pendingAck ∧
-        e'.s = e.s.afterTx now ∧ e'.gattMtu = e.gattMtu := by
+        e'.s = e.s.afterTx now ∧ e'.gattMtu = e.gattMtu ∧
+        (e.s.send.level = 1 → e.s.recv.pendingAck.isSome = true) := by
     unfold End.ackStep
     by_cases hdue : e.s.isAckDue now ackTimeoutSecs = true
     · simp only [hdue, if_true]
       by_cases hf : e.s.send.isFull e.s.recv = true
-      · left; rw [prepTxData_full hf]
+      · left; rw [prepTxData_full hf]; exact ⟨rfl, .inl hf⟩
       · right
         have hf' : e.s.send.isFull e.s.recv = false := by simpa using hf
         have hp : e.s.recv.pendingAck.isSome = true := by
           unfold Session.isAckDue at hdue; simp at hdue; simpa using hdue.1
         obtain ⟨hb, hok, hga⟩ := baseHdr_segOk he.s hm20 tx.remaining hp
         rw [prepTxData_emit_eq he.s hf' hb (segLen_le hok hm244).1]
-        exact ⟨_, _, { e with s := e.s.afterTx now }, rfl, notFull_level hf', hok, hga, rfl, rfl⟩
-    · left; simp only [hdue, Bool.false_eq_true, if_false]
+        exact ⟨_, _, { e with s := e.s.afterTx now }, rfl, notFull_level hf', hok, hga, rfl, rfl, notFull_last hf'⟩
+    · left
+      have hd0 : e.s.isAckDue now ackTimeoutSecs = false := by
+        cases h : e.s.isAckDue now ackTimeoutSecs
+        · rfl
+        · exact absurd h hdue
+      simp only [hd0, Bool.false_eq_true, if_false]
+      exact ⟨trivial, .inr trivial⟩
   unfold End.dataStep
   by_cases hd : (!e.sdu.isEmpty && e.s.established) = true
   · simp only [hd, if_true]
     by_cases hf : e.s.send.isFull e.s.recv = true
     · rw [prepTxData_full hf]
       simp only [List.length_nil, Nat.lt_irrefl, if_false]
-      rw [he1]; exact hack
+      rw [he1]
+      rcases hack with ⟨h1, _⟩ | h2
+      · exact .inl ⟨h1, .inl hf⟩
+      · exact .inr h2
     · right
       have hf' : e.s.send.isFull e.s.recv = false := by simpa using hf
       have hne : e.sdu ≠ [] := by
@@ -759,13 +908,46 @@ theorem endOutgoing_sync {e : End} (he : EInv e) (hnp : e.s.handshakePending = f
       simp only [hl.2, if_true]
       by_cases hend : e.off + p.length = e.sdu.length
       · simp only [hend, if_true, hl.2]
-        exact ⟨h, p, { e with s := e.s.afterTx now, sdu := [], off := 0 }, rfl, notFull_level hf', hok, hga, rfl, rfl⟩
+        exact ⟨h, p, { e with s := e.s.afterTx now, sdu := [], off := 0 }, rfl, notFull_level hf', hok, hga, rfl, rfl, notFull_last hf'⟩
       · simp only [hend, if_false, hl.2, if_true]
-        exact ⟨h, p, { e with s := e.s.afterTx now, off := e.off + p.length }, rfl, notFull_level hf', hok, hga, rfl, rfl⟩
+        exact ⟨h, p, { e with s := e.s.afterTx now, off := e.off + p.length }, rfl, notFull_level hf', hok, hga, rfl, rfl, notFull_last hf'⟩
   · simp only [hd, Bool.false_eq_true, if_false, List.length_nil, Nat.lt_irrefl]
-    exact hack
+    have hsdu : e.sdu = [] := by
+      simp only [hest, Bool.and_true, Bool.not_eq_true', Bool.not_eq_false] at hd
+      simpa using hd
+    rcases hack with ⟨h1, h2⟩ | h2
+    · left
+      refine ⟨h1, ?_⟩
+      rcases h2 with h2 | h2
+      · exact .inl h2
+      · exact .inr ⟨hsdu, h2⟩
+    · exact .inr h2
 
 /-! ## The link -/
+
+/-- the state from which nothing can ever be sent again: both send windows exhausted and no
+acknowledgement travelling in either direction -/
+def Dead (l : LMon) : Prop :=
+  l.a.e.s.send.level = 0 ∧ l.b.e.s.send.level = 0 ∧ NoAck l.qab ∧ NoAck l.qba
+
+theorem dead_iff (l : LMon) (x : Side) : Dead l ↔
+    ((l.get x).e.s.send.level = 0 ∧ (l.get x.other).e.s.send.level = 0 ∧ NoAck (l.inq x) ∧ NoAck (l.inq x.other)) := by
+  cases x
+  · exact ⟨fun ⟨a, b, c, d⟩ => ⟨a, b, d, c⟩, fun ⟨a, b, c, d⟩ => ⟨a, b, d, c⟩⟩
+  · exact ⟨fun ⟨a, b, c, d⟩ => ⟨b, a, c, d⟩, fun ⟨a, b, c, d⟩ => ⟨b, a, c, d⟩⟩
+
+theorem noAck_cons {seg : List Nat} {rest : List (List Nat)} :
+    NoAck (seg :: rest) ↔ ackOf seg = none ∧ NoAck rest := by
+  simp [NoAck]
+
+theorem noAck_snoc {seg : List Nat} {q : List (List Nat)} :
+    NoAck (q ++ [seg]) ↔ NoAck q ∧ ackOf seg = none := by
+  simp only [NoAck, List.mem_append, List.mem_singleton]
+  constructor
+  · intro h; exact ⟨fun s hs => h s (.inl hs), h seg (.inr rfl)⟩
+  · rintro ⟨h1, h2⟩ s (hs | hs)
+    · exact h1 s hs
+    · rw [hs]; exact h2
 
 /-- **Both ends established with the same parameters, and both directions accounted for.** -/
 structure Sync (W M : Nat) (l : LMon) : Prop where
@@ -773,15 +955,19 @@ structure Sync (W M : Nat) (l : LMon) : Prop where
   par : POk W M
   ses : ∀ x, (l.get x).e.s.established = true ∧ (l.get x).e.s.windowSize = W ∧ (l.get x).e.s.mtu = M
   dir : ∀ x, DirOk W M (l.get x).e.s.send (l.get x.other).e.s.recv (l.get x.other).rs (l.inq x.other) (l.inq x)
+  /-- never both send windows exhausted with no acknowledgement travelling -/
+  nodead : ¬ Dead l
 
 theorem sync_mk {W M : Nat} {l' : LMon} (x : Side) (hst : Steady l') (par : POk W M)
     (hx : (l'.get x).e.s.established = true ∧ (l'.get x).e.s.windowSize = W ∧ (l'.get x).e.s.mtu = M)
     (hy : (l'.get x.other).e.s.established = true ∧ (l'.get x.other).e.s.windowSize = W ∧
       (l'.get x.other).e.s.mtu = M)
     (d1 : DirOk W M (l'.get x).e.s.send (l'.get x.other).e.s.recv (l'.get x.other).rs (l'.inq x.other) (l'.inq x))
-    (d2 : DirOk W M (l'.get x.other).e.s.send (l'.get x).e.s.recv (l'.get x).rs (l'.inq x) (l'.inq x.other)) :
+    (d2 : DirOk W M (l'.get x.other).e.s.send (l'.get x).e.s.recv (l'.get x).rs (l'.inq x) (l'.inq x.other))
+    (nd : ¬ ((l'.get x).e.s.send.level = 0 ∧ (l'.get x.other).e.s.send.level = 0 ∧ NoAck (l'.inq x) ∧
+      NoAck (l'.inq x.other))) :
     Sync W M l' := by
-  refine ⟨hst, par, ?_, ?_⟩
+  refine ⟨hst, par, ?_, ?_, fun h => nd ((dead_iff l' x).mp h)⟩
   · intro y
     cases x <;> cases y <;> first | exact hx | exact hy
   · intro y
@@ -790,7 +976,7 @@ theorem sync_mk {W M : Nat} {l' : LMon} (x : Side) (hst : Steady l') (par : POk 
 theorem fetchMessage_frame {r r' : RecvWindow} {cap : Nat} {m : Option (List Nat)}
     (h : r.fetchMessage cap = .ok (r', m)) :
     r'.level = r.level ∧ r'.ackLevel = r.ackLevel ∧ r'.ackSeq = r.ackSeq ∧ r'.remMsgLen = r.remMsgLen ∧
-    r'.buf.length ≤ r.buf.length ∧ r'.msgCt ≤ r.msgCt := by
+    r'.buf.length ≤ r.buf.length ∧ r'.msgCt ≤ r.msgCt ∧ r'.receivedAt = r.receivedAt := by
   unfold RecvWindow.fetchMessage at h
   split at h
   · have hh := Prod.mk.inj (Except.ok.inj h); rw [← hh.1]; simp
@@ -810,7 +996,7 @@ theorem fetchMessage_frame {r r' : RecvWindow} {cap : Nat} {m : Option (List Nat
             · cases hmc
               have hh := Prod.mk.inj (Except.ok.inj h); rw [← hh.1]
               simp only [hb, List.length_drop, List.length_cons]
-              refine ⟨trivial, trivial, trivial, trivial, by omega, by omega⟩
+              refine ⟨trivial, trivial, trivial, trivial, by omega, by omega, trivial⟩
             · cases hmc
     · cases h
 
@@ -819,7 +1005,8 @@ theorem endRecv_frame2 {e e' : End} {cap : Nat} {m : Option (List Nat)} (h : e.r
     e'.s.mtu = e.s.mtu ∧
     e'.s.recv.level = e.s.recv.level ∧ e'.s.recv.ackLevel = e.s.recv.ackLevel ∧
     e'.s.recv.ackSeq = e.s.recv.ackSeq ∧ e'.s.recv.remMsgLen = e.s.recv.remMsgLen ∧
-    e'.s.recv.buf.length ≤ e.s.recv.buf.length ∧ e'.s.recv.msgCt ≤ e.s.recv.msgCt := by
+    e'.s.recv.buf.length ≤ e.s.recv.buf.length ∧ e'.s.recv.msgCt ≤ e.s.recv.msgCt ∧
+    e'.s.recv.receivedAt = e.s.recv.receivedAt := by
   unfold End.recv at h
   split at h
   · unfold Session.fetchMessage at h
@@ -830,8 +1017,8 @@ theorem endRecv_frame2 {e e' : End} {cap : Nat} {m : Option (List Nat)} (h : e.r
       obtain ⟨r', mm⟩ := r
       have hh := Prod.mk.inj (Except.ok.inj h)
       rw [← hh.1]
-      obtain ⟨f1, f2, f3, f4, f5, f6⟩ := fetchMessage_frame hf
-      exact ⟨rfl, rfl, rfl, rfl, f1, f2, f3, f4, f5, f6⟩
+      obtain ⟨f1, f2, f3, f4, f5, f6, f7⟩ := fetchMessage_frame hf
+      exact ⟨rfl, rfl, rfl, rfl, f1, f2, f3, f4, f5, f6, f7⟩
   · have hh := Prod.mk.inj (Except.ok.inj h)
     rw [← hh.1]; simp
 
@@ -859,6 +1046,8 @@ theorem sync_step {W M : Nat} {l : LMon} (hl : LInv l) (hs : Sync W M l) (op : O
     (l.step op = .error .invalidArgument ∧ ∃ x m, op = .send x m) := by
   -- an operation that succeeds preserves the steady part
   have hsteady : ∀ {l' o}, l.step op = .ok (l', o) → Steady l' := fun h => steady_step hl hs.st h
+  have hnd : ∀ x, ¬ ((l.get x).e.s.send.level = 0 ∧ (l.get x.other).e.s.send.level = 0 ∧ NoAck (l.inq x) ∧
+      NoAck (l.inq x.other)) := fun x h => hs.nodead ((dead_iff l x).mpr h)
   cases op with
   | send x m =>
     cases h : (l.get x).e.send m with
@@ -881,14 +1070,16 @@ theorem sync_step {W M : Nat} {l : LMon} (hl : LInv l) (hs : Sync W M l) (op : O
       have d1 := hs.dir x
       have d2 := hs.dir x.other
       simp only [other_other] at d2
-      refine sync_mk x (hsteady hstep) hs.par ?_ ?_ ?_ ?_
+      refine sync_mk x (hsteady hstep) hs.par ?_ ?_ ?_ ?_ ?_
       · simp only [get_set_same]; rw [hfs]; exact hs.ses x
       · simp only [get_set_other]; exact hs.ses x.other
       · simp only [get_set_same, get_set_other, inq_set]; rw [hfs]; exact d1
       · simp only [get_set_same, get_set_other, inq_set]; rw [hfs]; exact d2
+      · simp only [get_set_same, get_set_other, inq_set]; rw [hfs]; exact hnd x
   | tick n =>
     left
-    refine ⟨{ l with now := l.now + n }, .none, rfl, hsteady (l' := { l with now := l.now + n }) (o := .none) rfl, hs.par, ?_, ?_⟩
+    refine ⟨{ l with now := l.now + n }, .none, rfl, hsteady (l' := { l with now := l.now + n }) (o := .none) rfl, hs.par, ?_, ?_,
+      fun h => hs.nodead h⟩
     · intro x; cases x <;> first | exact hs.ses .a | exact hs.ses .b
     · intro x; cases x <;> first | exact hs.dir .a | exact hs.dir .b
   | fetch x cap =>
@@ -900,20 +1091,22 @@ theorem sync_step {W M : Nat} {l : LMon} (hl : LInv l) (hs : Sync W M l) (op : O
     rcases endRecv_spec (l.get x).e hm.e (l.get x).rs (l.get x).fetched.length hm.ring cap with h0 | ⟨full, e', h1, _, _, _⟩
     · have hstep : l.step (.fetch x cap) = .ok (l.set x { (l.get x) with e := (l.get x).e }, .none) := by
         simp only [LMon.step, Mon.step, h0]
-      refine ⟨_, _, hstep, sync_mk x (hsteady hstep) hs.par ?_ ?_ ?_ ?_⟩
+      refine ⟨_, _, hstep, sync_mk x (hsteady hstep) hs.par ?_ ?_ ?_ ?_ ?_⟩
       · simp only [get_set_same]; exact hs.ses x
       · simp only [get_set_other]; exact hs.ses x.other
       · simp only [get_set_same, get_set_other, inq_set]; exact d1
       · simp only [get_set_same, get_set_other, inq_set]; exact d2
+      · simp only [get_set_same, get_set_other, inq_set]; exact hnd x
     · have hstep : l.step (.fetch x cap) = .ok (l.set x { (l.get x) with e := e', fetched := (l.get x).fetched ++ [(full.take cap, cap)] }, .msg (full.take cap)) := by
         simp only [LMon.step, Mon.step, h1]
-      obtain ⟨f0, fe, fw, fm, f1, f2, f3, f4, f5, f6⟩ := endRecv_frame2 h1
-      refine ⟨_, _, hstep, sync_mk x (hsteady hstep) hs.par ?_ ?_ ?_ ?_⟩
+      obtain ⟨f0, fe, fw, fm, f1, f2, f3, f4, f5, f6, f7⟩ := endRecv_frame2 h1
+      refine ⟨_, _, hstep, sync_mk x (hsteady hstep) hs.par ?_ ?_ ?_ ?_ ?_⟩
       · simp only [get_set_same]; rw [fe, fw, fm]; exact hs.ses x
       · simp only [get_set_other]; exact hs.ses x.other
       · simp only [get_set_same, get_set_other, inq_set]; rw [f0]; exact d1
       · simp only [get_set_same, get_set_other, inq_set]
-        exact dirOk_fetch d2 f1 f2 f3 f4 f5 f6
+        exact dirOk_fetch d2 f1 f2 f3 f4 f5 f6 f7
+      · simp only [get_set_same, get_set_other, inq_set]; rw [f0]; exact hnd x
   | poll x =>
     left
     obtain ⟨hm, _⟩ := hl.get x
@@ -922,21 +1115,22 @@ theorem sync_step {W M : Nat} {l : LMon} (hl : LInv l) (hs : Sync W M l) (op : O
     have d2 := hs.dir x.other
     simp only [other_other] at d2
     obtain ⟨hest, hw, hmt⟩ := hs.ses x
-    rcases endOutgoing_sync hm.e dx.pend hest dx.tx l.now with h0 | ⟨h, p, e', h1, hlv, hok, hga, he', _⟩
+    rcases endOutgoing_sync hm.e dx.pend hest dx.tx l.now with ⟨h0, _⟩ | ⟨h, p, e', h1, hlv, hok, hga, he', _, hlast1⟩
     · have hstep : l.step (.poll x) = .ok (l.set x { (l.get x) with e := (l.get x).e }, .none) := by
         simp only [LMon.step, Mon.step, h0, List.length_nil, Nat.lt_irrefl, if_false]
-      refine ⟨_, _, hstep, sync_mk x (hsteady hstep) hs.par ?_ ?_ ?_ ?_⟩
+      refine ⟨_, _, hstep, sync_mk x (hsteady hstep) hs.par ?_ ?_ ?_ ?_ ?_⟩
       · simp only [get_set_same]; exact hs.ses x
       · simp only [get_set_other]; exact hs.ses x.other
       · simp only [get_set_same, get_set_other, inq_set]; exact d1
       · simp only [get_set_same, get_set_other, inq_set]; exact d2
+      · simp only [get_set_same, get_set_other, inq_set]; exact hnd x
     · rw [hmt] at hok
       have hlen := (segLen_le hok hs.par.m244).2
       have hstep : l.step (.poll x) = .ok ((l.set x { (l.get x) with e := e', tx := feedSeg (l.get x).tx (h.encode ++ p) }).setInq x.other
           ((l.set x { (l.get x) with e := e', tx := feedSeg (l.get x).tx (h.encode ++ p) }).inq x.other ++ [h.encode ++ p]), .tx (h.encode ++ p)) := by
         simp only [LMon.step, Mon.step, h1, hlen, if_true]
       have hdec := decode_encode h hok.canon p
-      refine ⟨_, _, hstep, sync_mk x (hsteady hstep) hs.par ?_ ?_ ?_ ?_⟩
+      refine ⟨_, _, hstep, sync_mk x (hsteady hstep) hs.par ?_ ?_ ?_ ?_ ?_⟩
       · simp only [get_setInq, get_set_same]; rw [he']; exact hs.ses x
       · simp only [get_setInq, get_set_other]; exact hs.ses x.other
       · simp only [get_setInq, get_set_same, get_set_other, inq_setInq_same, inq_setInq_other, inq_set]
@@ -949,6 +1143,15 @@ theorem sync_step {W M : Nat} {l : LMon} (hl : LInv l) (hs : Sync W M l) (op : O
         refine dirOk_emitAck d2 ?_ ?_
         · rw [ackOf_encode hok.canon p]; exact hga
         · intro hmc; exact ring_len_idle hm.ring hmc d2.rsb
+      · simp only [get_setInq, get_set_same, get_set_other, inq_setInq_same, inq_setInq_other, inq_set]
+        rw [he']
+        rintro ⟨h1', _, _, h4⟩
+        have hl1 : (l.get x).e.s.send.level = 1 := by
+          have : ((l.get x).e.s.afterTx l.now).send.level = (l.get x).e.s.send.level - 1 := rfl
+          omega
+        have hpa := hlast1 hl1
+        rw [noAck_snoc, ackOf_encode hok.canon p, hga] at h4
+        rw [h4.2] at hpa; cases hpa
   | deliver x =>
     left
     cases hq : l.inq x with
@@ -962,7 +1165,7 @@ theorem sync_step {W M : Nat} {l : LMon} (hl : LInv l) (hs : Sync W M l) (op : O
       rw [hq] at d1 d2
       obtain ⟨hest, hw, hmt⟩ := hs.ses x
       obtain ⟨h, p, r', hdec, hcan, hacc, d2'⟩ := dirOk_accept hs.par d2 l.now
-      obtain ⟨hchk, w', hsa, d1'⟩ := dirOk_ack hs.par.w255 d1 hdec hcan.hs l.now
+      obtain ⟨hchk, w', hsa, d1', hwn, hws⟩ := dirOk_ack hs.par.w255 d1 hdec hcan.hs l.now
       have hin : (l.get x).e.processIncoming seg l.now =
           .ok { (l.get x).e with s := { (l.get x).e.s with recv := r', send := w' } } := by
         unfold End.processIncoming Session.processRx
@@ -983,12 +1186,24 @@ theorem sync_step {W M : Nat} {l : LMon} (hl : LInv l) (hs : Sync W M l) (op : O
             rs := (l.get x).rs.feed h p,
             fetched := (l.get x).fetched.take (l.get x).fetched.length }).setInq x rest, .delivered) := by
         simp only [LMon.step, hq, Mon.step, hin, hg]
-      refine ⟨_, _, hstep, sync_mk x (hsteady hstep) hs.par ?_ ?_ ?_ ?_⟩
+      refine ⟨_, _, hstep, sync_mk x (hsteady hstep) hs.par ?_ ?_ ?_ ?_ ?_⟩
       · simp only [get_setInq, get_set_same]; exact ⟨hest, hw, hmt⟩
       · simp only [get_setInq, get_set_other]; exact hs.ses x.other
       · simp only [get_setInq, get_set_same, get_set_other, inq_setInq_same, inq_setInq_otherSide, inq_set]
         exact d1'
       · simp only [get_setInq, get_set_same, get_set_other, inq_setInq_same, inq_setInq_otherSide, inq_set]
         exact d2'
+      · simp only [get_setInq, get_set_same, get_set_other, inq_setInq_same, inq_setInq_otherSide, inq_set]
+        rintro ⟨h1', h2', h3', h4'⟩
+        cases hga : h.getAck with
+        | none =>
+          rw [hwn hga] at h1'
+          refine hnd x ⟨h1', h2', ?_, h4'⟩
+          rw [hq]
+          exact noAck_cons.mpr ⟨by simp [ackOf, hdec, hcan.hs, hga], h3'⟩
+        | some a =>
+          have := hws (by rw [hga]; rfl)
+          have h0 : w'.level = 0 := h1'
+          omega
 
 end Btp
